@@ -248,6 +248,23 @@ pub fn step_poll_unbounded(c: &MUCfg) {
                 k += 1;
             }
             vassert!(live, "C11:Pending although every source has ended");
+            // Pending only while the live sources are pending: a live source that
+            // was queued (has something to say) must have been polled in this call
+            let mut k = 0;
+            while k < 2 {
+                let mut i = 0;
+                while i < c.caps[k] {
+                    let sid = base[k] + i;
+                    if pre[k].occ[i] && pre[k].queued(i) && !gh.done[sid] {
+                        vassert!(
+                            gh.polls_in_call[sid] > 0 && (gh.last_answer[sid] == 1 || gh.last_answer[sid] == 2),
+                            "C11:Pending although a live source that was ready to be polled was not polled (or did not answer Pending)"
+                        );
+                    }
+                    i += 1;
+                }
+                k += 1;
+            }
             vcover!(true, "cover:pending");
         }
     }
